@@ -213,4 +213,105 @@ theorem scanInLineAt_digit (C : Classes) {z : Z} {c : UInt8} {t : Bytes} (hz : z
   unfold scanInLineAt
   simp [hz, peekRune, decodeRune_ascii t hlt, h1, h2, h3, h4, h5, h6, h7, h8, h9, h10, h11, h12, h13, h14, h15, hd]
 
+/-! ### number, sign -/
+
+theorem scanNumber_over {z : Z} {l rest : Bytes} (hz : z.after = l ++ rest)
+    (hl : ∀ c ∈ l, numByte c = true) (hstop : NumStop rest) :
+    scanNumber z = (tokAt .number l z l.length, z.over l rest) := by
+  unfold scanNumber
+  rw [scanNumberF_over l _ z false rest hz (by simp [hz]) hl hstop]
+  simp only [between_over, mkTok_over]
+
+/-- **Number.**  Digits and `.`, first a digit, not shaped like a date. -/
+theorem scanInLineAt_number (C : Classes) {z : Z} {l rest : Bytes} (hz : z.after = l ++ rest)
+    (h0 : ∃ c t, l = c :: t ∧ isDigit c = true) (hl : ∀ c ∈ l, numByte c = true) (hstop : NumStop rest)
+    (hdate : looksLikeDate z.after = false) :
+    scanInLineAt C z = (tokAt .number l z l.length, z.over l rest) := by
+  obtain ⟨c, t, rfl, hc0⟩ := h0
+  rw [scanInLineAt_digit C (by simpa using hz) hc0, hdate]
+  simp only [Bool.false_eq_true, if_false]
+  exact scanNumber_over hz hl hstop
+
+/-- **Sign.**  `-` directly in front of a digit. -/
+theorem scanInLineAt_minus (C : Classes) {z : Z} {d : UInt8} {t : Bytes} (hz : z.after = 0x2D :: d :: t)
+    (hd : isDigit d = true) :
+    scanInLineAt C z = (tokAt .sign [0x2D] z 1, z.over [0x2D] (d :: t)) := by
+  unfold scanInLineAt
+  have hnd : nextIsDigit z.after = true := by simp [nextIsDigit, hz, headIsDigit, hd]
+  have hr : peekRune z = 0x2D := by simp [peekRune, hz, decodeRune]
+  simp only [hz, hr]
+  rw [← hz, hnd]
+  simp only [Bool.or_true, if_true]
+  rw [if_neg (by decide), if_neg (by decide), if_neg (by decide), if_neg (by decide), if_neg (by decide),
+    if_neg (by decide), if_neg (by decide), if_neg (by decide), if_neg (by decide), if_neg (by decide),
+    if_neg (by decide), if_neg (by decide), if_pos (by decide)]
+  unfold scanSign
+  rw [advance_over hz (by decide)]
+  have hp : peek z = 0x2D := by simp [peek, hz]
+  rw [hp, mkTok_over]
+  rfl
+
+/-! ### account -/
+
+theorem looksLikeAccountF_over (a : Bytes) :
+    ∀ (n : Nat) (rest : Bytes) (hc : Bool), a.length ≤ n → (∀ c ∈ a, acctByte c = true) → AcctStop rest →
+      looksLikeAccountF n (a ++ rest) hc = (hc || a.contains 0x3A) := by
+  induction a with
+  | nil =>
+    intro n rest hc hn _ hstop
+    simp only [List.nil_append, List.contains_nil, Bool.or_false]
+    cases n with
+    | zero => rfl
+    | succ n =>
+    rcases hstop with h | ⟨c, t, h, hlt, ht⟩ | ⟨t, h⟩
+    · simp [h, looksLikeAccountF]
+    · have h20 : c.toNat ≠ 0x20 := by
+        intro h'; rw [h'] at ht; simp [isAccountTerminator] at ht
+      have h3a : c.toNat ≠ 0x3A := by
+        intro h'; rw [h'] at ht; simp [isAccountTerminator] at ht
+      subst h
+      unfold looksLikeAccountF
+      simp only [decodeRune_ascii t hlt, ht, if_true]
+      simp [h20, h3a]
+    · subst h
+      unfold looksLikeAccountF
+      simp [decodeRune_ascii _ (by decide : (0x20 : UInt8) < 0x80), headIs]
+  | cons c a ih =>
+    intro n rest hc hn ha hstop
+    obtain ⟨n, rfl⟩ : ∃ m, n = m + 1 := ⟨n - 1, by simp at hn; omega⟩
+    have hc0 := ha c (by simp)
+    simp only [acctByte, Bool.and_eq_true, decide_eq_true_eq, bne_iff_ne, ne_eq, Bool.not_eq_true'] at hc0
+    obtain ⟨⟨hc1, hc2⟩, hc3⟩ := hc0
+    have h20 : ¬ c.toNat = 0x20 := by
+      intro h'; apply hc2; exact UInt8.toNat_inj.mp (by simpa using h')
+    have ih' := fun hc' => ih n rest hc' (by simpa using hn) (fun x hx => ha x (by simp [hx])) hstop
+    simp only [List.cons_append]
+    unfold looksLikeAccountF
+    simp only [decodeRune_ascii _ hc1, List.drop_one, List.tail_cons]
+    by_cases h3a : c = 0x3A
+    · subst h3a
+      simp [ih']
+    · have h3a' : ¬ c.toNat = 0x3A := by
+        intro h'; apply h3a; exact UInt8.toNat_inj.mp (by simpa using h')
+      rw [if_neg (by simpa using h3a'), if_neg (by simpa using h20), hc3]
+      simp only [Bool.false_eq_true, if_false, ih', List.contains_cons]
+      have : (0x3A == c) = false := by simpa using fun h => h3a h.symm
+      simp [this]
+
+/-- **Account.**  A blank-free name with a colon, first a letter, ended by `AcctStop`. -/
+theorem scanInLineAt_account (C : Classes) {z : Z} {a rest : Bytes} (hz : z.after = a ++ rest)
+    (h0 : ∃ c t, a = c :: t ∧ isLetter c = true) (ha : ∀ c ∈ a, acctByte c = true)
+    (hcolon : a.contains 0x3A = true) (hstop : AcctStop rest) :
+    scanInLineAt C z = (tokAt .account a z a.length, z.over a rest) := by
+  obtain ⟨c, t, rfl, hc0⟩ := h0
+  have hlla : looksLikeAccount z.after = true := by
+    unfold looksLikeAccount
+    rw [hz, looksLikeAccountF_over _ _ rest false (by simp) ha hstop, hcolon]; rfl
+  rw [scanInLineAt_letter C (by simpa using hz) hc0, hlla]
+  simp only [if_true]
+  unfold scanAccount
+  rw [scanAccountF_over (c :: t) _ z z rest hz (by simp [hz]) ha hstop]
+  simp only [reduceCtorEq, if_false]
+  rw [between_over, mkTok_over]
+
 end HL.Lex
